@@ -269,7 +269,9 @@ func init() {
 		for _, s := range p.sliceElems(a[2].(SliceV)) {
 			bs := p.sliceBytes(s.(SliceV))
 			lens = append(lens, fmt.Sprint(len(bs)))
-			all = append(all, bs...)
+			for _, b := range bs {
+				all = append(all, p.eqFind(b)) // eqcanon.go: equal arguments give the same application term
+			}
 		}
 		fname := fmt.Sprintf("uf_%s_%s_%d", name, strings.Join(lens, "_"), outLen)
 		var r *Term
